@@ -17,6 +17,7 @@ from vf.gen import rng_for, synth_daily, synth_hourly, billing_reads
 from vf.oracle import metrics as O
 
 ID = "C16"
+TECHNIQUE = 'runtime monitoring: reference-model monitor: textbook statistics recomputed independently from the observed/predicted pairs and compared with every field the real metrics classes / models report; contract on _safe_divide; gate judged with thresholds straddling the measured values'
 LEVEL = "exploration"
 CASE_TIMEOUT = 900
 RULE = ("direct cases: generated observed/predicted series (length 2..20000; NaN/inf rows; zero-mean, zero-spread, negative, "
